@@ -367,6 +367,27 @@ def run(ctx: Ctx) -> None:
     ctx.rule("C17.R3", "lexicase: best value / comparison / epsilon band follow each case's minimise flag; threshold from current candidates")
     ctx.rule("C17.R4", "lexicase: winner drawn from the remaining pool and removed once; pool is a fresh copy")
     check_key_function(ctx)
+    # selection retires a winner with candidates.remove(winner) and tests membership with 'in': both compare with ==, so individuals
+    # must keep identity semantics - a value equality (same genotype) makes a clone stand in for the winner
+    ctx.rule("C17.R5", "individuals compare by identity (list.remove / in / index in the selection steps address the object itself)")
+    ind_cls = prog.get_class(INDIVIDUAL)
+    from ..frontend import decorators as _decos
+    offenders = []
+    for k in prog.mro(ind_cls):
+        for m_ in ("__eq__", "__hash__"):
+            if m_ in k.methods:
+                offenders.append((k.methods[m_], f"{k.name}.{m_}"))
+        for d_ in k.node.decorator_list:
+            txt = norm(d_)
+            if txt.split("(")[0].split(".")[-1] == "dataclass" and "eq=False" not in txt.replace(" ", ""):
+                offenders.append((None, f"@dataclass on {k.name} (generates __eq__ from the fields)"))
+    uses = [c_ for st_ in prog.subclasses(STEP) for it_ in [prog.lookup_method(st_, "iterate")] if it_ is not None
+            for c_ in walk_local(it_.node) if isinstance(c_, ast.Call) and isinstance(c_.func, ast.Attribute) and c_.func.attr in ("remove", "index", "count")]
+    ctx.ob("C17.R5", offenders[0][0] if offenders and offenders[0][0] is not None else None, None,
+           "Individual keeps identity semantics (no __eq__ / __hash__, no eq-dataclass) wherever selection removes / looks up by ==", not (offenders and uses),
+           "" if not (offenders and uses) else (f"{offenders[0][1]} gives individuals a value equality: '{norm(uses[0])[:40] if uses else 'candidates.remove(winner)'}' then removes the "
+                                     f"first individual that compares equal, not the winner - a clone of it stays available and can be returned again, more often "
+                                     f"than the population contains it"), module=ind_cls.module.relpath)
     tour = lex = 0
     for c in prog.subclasses(STEP):
         it = prog.lookup_method(c, "iterate")
